@@ -310,10 +310,24 @@ def _gmode_den(I, obj, pt):
     k = sl.length
     dk = lambda t: den(I, sl.elem(t), pt)
     D = gmode.forall_const(I, k, lambda t: dk(t).D, f"D({obj.name})")
+    fo = getattr(sl, "filter_of", None)
+    if fo is not None and not gmode.keying():
+        # filter lemma (spec/lemmas.lean: ax_bigsum_filter / ax_bigprod_filter): the sum (product)
+        # over the kept entries is the sum (product) over all entries, unless some dropped entry
+        # is not the neutral element
+        whole, sigma, pred = fo
+        wk = lambda t: den(I, whole.elem(t), pt)
+        neutral = 0 if obj.cls.name == "Add" else 1
+        big = gmode.bigsum if obj.cls.name == "Add" else gmode.bigprod
+        w = z3.Int(I.path.fresh_name("w!dropped"))
+        gmode.qm(I).add_index(w, whole.length)
+        gmode.qm(I).links.append(z3.Or(big(I, lambda t: dk(t).V, k) == big(I, lambda t: wk(t).V, whole.length),
+                                       z3.And(w >= 0, w < whole.length, z3.Not(pred(w)), wk(w).V != neutral)))
     if obj.cls.name == "Add":
         V = gmode.bigsum(I, lambda t: dk(t).V, k)
         return Den(D, V, lambda name: gmode.bigsum(I, lambda t: dk(t).dV(name), k))
     V = gmode.bigprod(I, lambda t: dk(t).V, k)
+    gmode.register_zero_lemma(I, lambda t: dk(t).V, k)
 
     def dv(name):
         # sum_i dV_i * prod_{j != i} V_j : the product over the list with its i-th entry removed
